@@ -35,10 +35,10 @@ QUICK = [
     cls("names", ["dir", "stdin"], ["a", "x/y"], ["k1"], [1], 0, 1, [0, 1, 2], unsafe=["x/y"], budget=1500),
 ]
 THOROUGH = [
-    cls("main", ALL_LEGS, ["a", "b"], ["k1", "k2"], [0, 1, 2, 3], 2, 3, [0, 1, 2, 3, 4, 5, 6], budget=10 ** 7),
+    cls("main", ALL_LEGS, ["a", "b"], ["k1", "k2"], [0, 1, 2], 2, 3, [0, 1, 2, 3, 4, 5], budget=10 ** 7),
     cls("edge", ALL_LEGS, ["a", "b"], ["k1"], [0, 1, 1825, 1826], 1, 2, [0, 1, 2, 1824, 1825, 1826, 1827], neg=True,
         damage=ALL_DAMAGE, budget=10 ** 7),
-    cls("names", ["dir", "stdin"], ["a", "b", "x/y"], ["k1", "k2"], [1], 1, 2, [0, 1, 2, 3], unsafe=["x/y"], budget=10 ** 7),
+    cls("names", ["dir", "stdin"], ["a", "x/y"], ["k1", "k2"], [1], 1, 2, [0, 1, 2, 3], unsafe=["x/y"], budget=10 ** 7),
 ]
 
 
